@@ -26,8 +26,9 @@ VARIABLES enabled, threaded, started,   \* configuration as the calls made it
           fin,           \* qb_log_fini has returned
           second,        \* a second threaded target exists: 0 = no, k+1 = opened when k messages had been logged;
                          \* it is enabled and threaded from then on and selected by the same call sites
-          written2       \* ids written to it, in order of the writes
-fvars == <<enabled, threaded, started, called, size, backlog, written, mayDrop, mdu, opt, lostRep, cur, fin, second, written2>>
+          written2,      \* ids written to it, in order of the writes
+          closedCb       \* the target's close function has run (qb_log_custom_close): its logger is not called any more
+fvars == <<enabled, threaded, started, called, size, backlog, written, mayDrop, mdu, opt, lostRep, cur, fin, second, written2, closedCb>>
 
 OP_INIT == 1  OP_SETTHREADED == 2  OP_ENABLE == 3  OP_CONF == 4  OP_CLOSE == 5  OP_START == 6  OP_LOG == 7  OP_FINI == 8  OP_SECOND == 9
 Range(s) == {s[i] : i \in DOMAIN s}
@@ -35,7 +36,7 @@ PendingF == (1..called) \ Range(written)
 
 FInit == /\ enabled = FALSE /\ threaded = FALSE /\ started = FALSE /\ called = 0 /\ size = <<>> /\ backlog = 0
          /\ written = <<>> /\ mayDrop = {} /\ mdu = 0 /\ opt = {} /\ lostRep = 0 /\ cur = 0 /\ fin = FALSE
-         /\ second = 0 /\ written2 = <<>>
+         /\ second = 0 /\ written2 = <<>> /\ closedCb = FALSE
 
 Inv(op, arg, sz) ==
   /\ cur = 0 /\ cur' = op /\ ~fin
@@ -59,20 +60,24 @@ Inv(op, arg, sz) ==
        [] op \in {OP_INIT, OP_CONF, OP_FINI, OP_SECOND} ->
             UNCHANGED <<enabled, threaded, started, called, size, backlog, mayDrop, mdu, opt>>
   /\ second' = IF op = OP_SECOND /\ second = 0 THEN called + 1 ELSE second
-  /\ UNCHANGED <<written, lostRep, fin, written2>>
+  /\ UNCHANGED <<written, lostRep, fin, written2, closedCb>>
 
 Ret(op, rc) ==
   /\ cur = op /\ cur' = 0 /\ rc = 0
   /\ fin' = (op = OP_FINI)
-  /\ UNCHANGED <<enabled, threaded, started, called, size, backlog, written, mayDrop, mdu, opt, lostRep, second, written2>>
+  /\ UNCHANGED <<enabled, threaded, started, called, size, backlog, written, mayDrop, mdu, opt, lostRep, second, written2, closedCb>>
+
+CloseCb ==
+  /\ cur \in {OP_CLOSE, OP_FINI} /\ ~closedCb /\ closedCb' = TRUE       \* (qb_log_fini closes the targets that are still open)
+  /\ UNCHANGED <<enabled, threaded, started, called, size, backlog, written, mayDrop, mdu, opt, lostRep, cur, fin, second, written2>>
 
 Write(m) ==
-  /\ ~fin /\ started
+  /\ ~fin /\ started /\ ~closedCb
   /\ m \in 1..called
   /\ (written # <<>> => m > written[Len(written)])
   /\ written' = Append(written, m) /\ backlog' = backlog - size[m]
   /\ mdu' = IF m \in mayDrop THEN mdu - 1 ELSE mdu
-  /\ UNCHANGED <<enabled, threaded, started, called, size, mayDrop, opt, lostRep, cur, fin, second, written2>>
+  /\ UNCHANGED <<enabled, threaded, started, called, size, mayDrop, opt, lostRep, cur, fin, second, written2, closedCb>>
 
 (* the second target's logger is called with message m: at most once per message, in the order logged *)
 Write2(m) ==
@@ -80,11 +85,11 @@ Write2(m) ==
   /\ m \in 1..called
   /\ (written2 # <<>> => m > written2[Len(written2)])
   /\ written2' = Append(written2, m)
-  /\ UNCHANGED <<enabled, threaded, started, called, size, backlog, written, mayDrop, mdu, opt, lostRep, cur, fin, second>>
+  /\ UNCHANGED <<enabled, threaded, started, called, size, backlog, written, mayDrop, mdu, opt, lostRep, cur, fin, second, closedCb>>
 
 Lost(n) ==
   /\ ~fin /\ n > 0 /\ lostRep' = lostRep + n
-  /\ UNCHANGED <<enabled, threaded, started, called, size, backlog, written, mayDrop, mdu, opt, cur, fin, second, written2>>
+  /\ UNCHANGED <<enabled, threaded, started, called, size, backlog, written, mayDrop, mdu, opt, cur, fin, second, written2, closedCb>>
 
 Unwritten == (1..called) \ Range(written)
 DeliveredAtFini ==
